@@ -15,7 +15,12 @@ def base_trait(s):
 
 
 def all_ans(facts):
+    # closures whose every use was expanded in place are dead code (normalize.drop_dead_closures, N6): nothing can run them,
+    # their statements are looked at where they were inlined
+    dead = set(facts.meta.get('closures_dead') or [])
     for b in facts.body_list:
+        if b.key in dead:
+            continue
         a = get_an(facts, b.key)
         if a is not None:
             yield a
